@@ -387,6 +387,21 @@ Proof.
 Qed.
 Print Assumptions c18_tls_per_fiber.
 
+(* own store or initialiser: at any time a fiber reads from a thread-local pointer its own last store if it stored
+   at all (0 = a stored nullptr counts as a store), else the variable's initialiser; in particular after storing
+   nullptr it reads nullptr even if the initialiser is non-null and whatever the other fibers store *)
+Theorem c18_tls_own_store_or_default :
+  (forall tr s f x,
+     Tl.get (Tl.run s tr) f x =
+     match TlP.last_store f x tr (Tl.tls s f x) with
+     | Some v => v
+     | None => TlP.last_default x tr (Tl.dflt s x)
+     end) /\
+  (forall s f x tr, (forall g y v, In (Tl.ESet g y v) tr -> g <> f \/ y <> x) ->
+     Tl.get (Tl.run (Tl.step s (Tl.ESet f x 0)) tr) f x = 0).
+Proof. split; [exact TlP.own_store_or_default|exact TlP.null_store_kept]. Qed.
+Print Assumptions c18_tls_own_store_or_default.
+
 (* distinct thread-local pointer variables occupy distinct slots of the per-fiber map, whatever their pointee
    types, when the proxies are numbered by one counter *)
 Theorem c18_tls_variables_distinct : forall tys, NoDup (Tl.slots true tys).
